@@ -293,6 +293,9 @@ def c09(res):
 
     outs = m4_render.run(res.tier)
     m4_render.classify(outs, res)
+    from . import traces
+
+    traces.classify_driver(res, "C09")
     # node classes with their own __eq__ / truth value are trees, too ("for every tree")
     rout = m4_render.run_adversarial(res.tier)
     res.replayed += rout["n"]
@@ -319,6 +322,10 @@ def _m5(res, which, prop, rule):
 
     outs = m5_export.run(which, res.tier)
     m5_export.classify(outs, res, prop)
+    if prop in ("C10", "C12", "C13"):
+        from . import traces
+
+        traces.classify_driver(res, prop)
     res.rule = rule
     res.distinct = sum(o["vectors"] for o in outs)
     res.exhaustive = True
